@@ -29,6 +29,24 @@ def jdefault(o):
     return repr(o)
 
 
+def same(a, b):
+    """structural equality of outputs, floats compared up to the last bits.  WHY: a composite reward is `sum(parts)`; python's sum is
+    compensated for float but not for numpy.float64, and whether a part is one or the other depends on whether an agent coordinate
+    is a python int or a numpy integer (reset draws are numpy integers) -- an artefact of the value's history, not of the property.
+    Reward parameters are generated with at most 6 decimals and |value| <= 10, so a wrong / missing / misplaced part differs by
+    >= 1e-6: the tolerance (1e-9 relative) cannot hide one."""
+    if isinstance(a, bool) or isinstance(b, bool):
+        return type(a) is type(b) and a == b if isinstance(a, bool) and isinstance(b, bool) else a == b
+    fa = isinstance(a, float) or type(a).__name__.startswith('float')
+    fb = isinstance(b, float) or type(b).__name__.startswith('float')
+    if fa and fb:
+        a, b = float(a), float(b)
+        return a == b or abs(a - b) <= 1e-9 * max(1.0, abs(a), abs(b))
+    if isinstance(a, (list, tuple)) and isinstance(b, (list, tuple)):
+        return len(a) == len(b) and all(same(x, y) for x, y in zip(a, b))
+    return a == b
+
+
 class Ctx:
     def __init__(self, prop, tier, seed, level='proof'):
         self.prop = prop
